@@ -240,6 +240,11 @@ def run(ctx, chk):
              "bit: operand width + distance <= 31 for int (decided on the clang AST, where the promotion is visible; a shift into the sign bit is an overflow of the signed type)")
     import ast_rules as _ar
     _ar.check_signed_shifts(chk, "C20.signed-shift", prog)
+    chk.rule("C20.size-header", "the size of a head is computed for the right class of its argument: _cbor_encoded_header_size partitions "
+             "all 2^64 values exactly like the shortest-form selector of the encoders, so the computed total is the exact number of "
+             "bytes (shared with C07.size-header)")
+    from props.c07 import check_header_partition
+    check_header_partition(chk, "C20.size-header", prog, cache)
     chk.exhaustive = True
 
 
@@ -350,16 +355,24 @@ def classify_ir(prog, f, i):
                         return ("6-counted-induction", "count-down counter tested against zero; the decremented value only feeds the counter")
     # 10: non-size counters, by the field they load
     st, idx = _field_of_load(prog, a)
-    if isinstance(b, Const) and (b.v == 1 or b.v == SIZE_MAX):
-        if st == "%struct.cbor_item_t" and idx == (0, 1):
+
+    def fld(struct, field):
+        """the loaded field, by NAME (resolved to a byte offset through the struct's debug type: the order of fields may change)"""
+        if st != "%struct." + struct:
+            return False
+        v_ = strip_casts(a, ("bitcast", "zext", "sext", "trunc"))
+        g_ = strip_casts(v_.operands[0])
+        return g_.d.get("const_offset") == prog.field_offset(struct, field)
+    if isinstance(b, Const) and (b.v == 1 or b.v == SIZE_MAX) and st is not None:
+        if fld("cbor_item_t", "refcount"):
             return ("10-counter", "reference count +-1 (2^64 live references cannot exist; decrement is the documented release)")
-        if st == "%struct._cbor_stack_record" and idx == (0, 2):
+        if fld("_cbor_stack_record", "subitems"):
             return ("10-counter", "remaining-children countdown of a frame (a frame is only pushed with a positive count or 0 for indefinite)")
-        if st == "%struct._cbor_stack" and idx == (0, 1) and b.v == SIZE_MAX and f.name == "_cbor_stack_pop":
+        if fld("_cbor_stack", "size") and b.v == SIZE_MAX and f.name == "_cbor_stack_pop":
             return ("10-counter", "stack depth - 1 in pop (every caller pops a frame it just inspected)")
-        if st == "%struct._cbor_stack" and idx == (0, 1) and b.v == 1 and f.unit.endswith("internal/stack.c"):
+        if fld("_cbor_stack", "size") and b.v == 1 and f.unit.endswith("internal/stack.c"):
             return ("10-counter", "stack depth + 1 inside the stack module: depth <= CBOR_MAX_STACK_SIZE by the gate (C19.gate) and the single-writer rule")
-        if st == "%struct._cbor_map_metadata" and idx == (0, 1) and f.name == "_cbor_map_add_value":
+        if fld("_cbor_map_metadata", "end_ptr") and f.name == "_cbor_map_add_value":
             return ("10-counter", "pair index count - 1 right after a successful key insertion (C12.value-slot)")
     # 10: recursion depth: parameter + 1 whose only use is as an argument of a recursive call (one native frame per unit)
     if i.op == "add" and isinstance(a, Arg) and isinstance(b, Const) and b.v == 1:
@@ -379,7 +392,33 @@ def classify_ir(prog, f, i):
             return ("8-window", "written + callee result, each bounded by the size the callee was given (C07.window)")
     if f.name == "_cbor_nested_describe" and i.op == "add":
         return ("6-counted-induction", "pretty-printer loop index")
+    # 8 (dataflow form): the result is a quantity the window dataflow (lib/window.py) places inside a (pointer, length) parameter
+    # pair on entry to its block: an offset D + o with 0 <= D + o <= n, or a remaining-count n - (D + o) that has not wrapped
+    if i.op in ("add", "sub"):
+        import window as _W
+        key = (id(prog), f.name)
+        if key not in _WIN_CACHE:
+            _WIN_CACHE[key] = [_W.Window(prog, f, pi, ni, None) for pi, ni in _W.window_pairs(f)]
+        for w in _WIN_CACHE[key]:
+            c = w.cls(i)
+            if c is None or c[0] not in ("I", "R"):
+                continue
+            if c[1] == 0 and c[0] == "I":
+                if not hasattr(w, "_taint"):
+                    w._taint = w.tainted()
+                if i.id not in w._taint:
+                    continue        # plain constant arithmetic that has nothing to do with the window
+            sl, lo = w.bounds_at(i.block, ("P", c[1], c[2]))
+            if c[0] == "I" and lo is not None and lo >= 0 and sl is not None and sl >= 0:
+                return ("8-window", "an offset into [%s, %s + %s): between 0 and the length on entry to its block (window dataflow)" % (
+                    f.params[w.pi]["name"], f.params[w.pi]["name"], f.params[w.ni]["name"]))
+            if c[0] == "R" and sl is not None and sl >= 0:
+                return ("8-window", "what remains of [%s, %s + %s) from an offset inside it: cannot have wrapped (window dataflow)" % (
+                    f.params[w.pi]["name"], f.params[w.pi]["name"], f.params[w.ni]["name"]))
     return None
+
+
+_WIN_CACHE = {}
 
 
 def _sum_leaves(t):
@@ -500,11 +539,39 @@ def classify_event(prog, pa, idx, e, root=None, failsig=()):
                             return True
                 return False
 
-            def total(t):
-                return all(x == ("c", 0) or x in results or window_len(x) for x in _sum_leaves(t))
-            if op == "sub" and a == SIZE and total(b):
+            BUFp = ("arg", pn["buffer"][0])
+            M1 = (1 << 64) - 1
+
+            def shape(t):
+                """how a term relates to the output window, read off its linear form: W = bytes written so far (a sum of results of
+                failure-signalling encoders / lengths tested against the remaining room), REM = SIZE - W, PTR = BUF + W, END = BUF + SIZE"""
+                l = P.linear(t)
+                if 1 in l:
+                    return None
+                w = {k_: c_ for k_, c_ in l.items() if k_ not in (SIZE, BUFp)}
+                if not all(k_ in results or window_len(k_) for k_ in w):
+                    return None
+                pos = all(c_ == 1 for c_ in w.values())
+                neg = all(c_ == M1 for c_ in w.values())
+                sz, bf = l.get(SIZE, 0), l.get(BUFp, 0)
+                if sz == 0 and bf == 0 and pos:
+                    return "W"
+                if sz == 1 and bf == 0 and neg:
+                    return "REM" if w else "SIZE"
+                if sz == 0 and bf == 1 and pos:
+                    return "PTR" if w else "BUF"
+                if sz == 1 and bf == 1 and not w:
+                    return "END"
+                return None
+            sa, sb = shape(a), shape(b)
+            if op == "add" and sa in ("W",) and sb in ("W",):
                 return True, "8-window", ""
-            if op == "add" and total(a) and total(b):
+            if op == "add" and ((a == ("c", 0) and sb == "W") or (b == ("c", 0) and sa == "W")):
+                return True, "8-window", ""
+            if op == "sub" and (sa, sb) in (("SIZE", "W"), ("REM", "W"), ("SIZE", "REM"), ("PTR", "BUF"), ("END", "PTR"), ("END", "BUF"), ("PTR", "PTR")):
+                if (sa, sb) != ("PTR", "PTR") or all(c_ == 1 for c_ in P.linear_diff(a, b).values()):
+                    return True, "8-window", ""
+            if op == "sub" and sa == "SIZE" and b == ("c", 0):
                 return True, "8-window", ""
     # the claim_bytes failure arm with constant-bounded operands
     if op == "add" and (is_const(a) or is_const(b)):
